@@ -175,7 +175,43 @@ func fnv(s string) uint64 {
 // shallowSig renders a result slice by the identity of its elements: scalars by value,
 // containers by address.  "The slice belongs to the caller" is about the slice itself; what
 // happens inside containers of the document is C04's business.
-func shallowSig(res []interface{}) string {
+func shallowSig(res []interface{}) string { return resultSig(res, nil) }
+
+// containerIDs collects the identities of all containers reachable from the documents.
+func containerIDs(docs []*Doc) map[uintptr]bool {
+	ids := map[uintptr]bool{}
+	var walk func(v interface{}, d int)
+	walk = func(v interface{}, d int) {
+		if d > 12 {
+			return
+		}
+		switch t := v.(type) {
+		case map[string]interface{}:
+			if t != nil {
+				ids[reflect.ValueOf(t).Pointer()] = true
+			}
+			for _, e := range t {
+				walk(e, d+1)
+			}
+		case []interface{}:
+			if len(t) > 0 {
+				ids[reflect.ValueOf(t).Pointer()] = true
+			}
+			for _, e := range t {
+				walk(e, d+1)
+			}
+		}
+	}
+	for _, d := range docs {
+		walk(d.Val, 0)
+	}
+	return ids
+}
+
+// resultSig: like shallowSig, but a container that is NOT part of the caller's documents
+// (docIDs non-nil) - a value a user function produced - is rendered deeply: it belongs to the
+// caller just like the slice itself.
+func resultSig(res []interface{}, docIDs map[uintptr]bool) string {
 	var b strings.Builder
 	for i, e := range res {
 		if i > 0 {
@@ -183,8 +219,17 @@ func shallowSig(res []interface{}) string {
 		}
 		switch t := e.(type) {
 		case map[string]interface{}:
+			if docIDs != nil && t != nil && !docIDs[reflect.ValueOf(t).Pointer()] {
+				canonTo(&b, e, 0)
+				continue
+			}
 			fmt.Fprintf(&b, "map@%p", t)
 		case []interface{}:
+			if docIDs != nil && len(t) > 0 && !docIDs[reflect.ValueOf(t).Pointer()] {
+				// the elements of such a list may be containers of the document: one level deep
+				b.WriteString("list(" + resultSig(t, docIDs) + ")")
+				continue
+			}
 			if len(t) == 0 {
 				fmt.Fprintf(&b, "slice/0")
 			} else {
